@@ -35,7 +35,7 @@ fn emit_hints<const DP: u8>() {
     kani::cover!(optimize && bits == 0, "optimize with empty flag word reachable");
     std::mem::forget(args); std::mem::forget(v);
 }
-macro_rules! eh_h { ($($n:ident: $k:expr;)*) => { $(#[kani::proof] #[kani::unwind(4)] #[kani::stub(std::ptr::drop_in_place, no_drop)] #[kani::stub(core::ptr::drop_glue, no_glue)] #[kani::stub(alloc::fmt::format, fmt_marker)] fn $n() { emit_hints::<$k>() })* } }
+macro_rules! eh_h { ($($n:ident: $k:expr;)*) => { $(#[kani::proof] #[kani::unwind(4)] #[kani::stub(std::ptr::drop_in_place, no_drop)] #[kani::stub(core::ptr::drop_glue, no_glue)] #[kani::stub(std::vec::Vec::extend_from_slice, extend_from_slice_model)] #[kani::stub(alloc::fmt::format, fmt_marker)] fn $n() { emit_hints::<$k>() })* } }
 eh_h! { hints_no_dynamic_props: 0; hints_one_dynamic_prop: 1; hints_two_dynamic_props: 2; hints_list_absent: 3; }
 
 /// C04: every directive yields exactly one runtime binding `[definition, value, arg?, modifiers?]` on the vnode, in order;
@@ -71,11 +71,11 @@ fn wrap_directives<const N: u8, const SHAPE: u8>() {
     }
     std::mem::forget(r); std::mem::forget(el); std::mem::forget(v);
 }
-macro_rules! wd_h { ($($n:ident: $k:expr, $s:expr;)*) => { $(#[kani::proof] #[kani::unwind(4)] #[kani::stub(std::ptr::drop_in_place, no_drop)] #[kani::stub(core::ptr::drop_glue, no_glue)] #[kani::stub(alloc::fmt::format, fmt_marker)] fn $n() { wrap_directives::<$k, $s>() })* } }
+macro_rules! wd_h { ($($n:ident: $k:expr, $s:expr;)*) => { $(#[kani::proof] #[kani::unwind(4)] #[kani::stub(std::ptr::drop_in_place, no_drop)] #[kani::stub(core::ptr::drop_glue, no_glue)] #[kani::stub(std::vec::Vec::extend_from_slice, extend_from_slice_model)] #[kani::stub(alloc::fmt::format, fmt_marker)] fn $n() { wrap_directives::<$k, $s>() })* } }
 wd_h! { wrapdir_none: 0, 0; wrapdir_value_only: 1, 0; wrapdir_with_arg: 1, 1; wrapdir_with_mods_only: 1, 2; wrapdir_with_arg_and_mods: 1, 3; wrapdir_two: 2, 0; }
 
 /// C02/C15: a fragment is created by the factory (pragma or createVNode) with Vue's Fragment, null props and its children.
-#[kani::proof] #[kani::unwind(4)] #[kani::stub(std::ptr::drop_in_place, no_drop)] #[kani::stub(core::ptr::drop_glue, no_glue)] #[kani::stub(alloc::fmt::format, fmt_marker)]
+#[kani::proof] #[kani::unwind(4)] #[kani::stub(std::ptr::drop_in_place, no_drop)] #[kani::stub(core::ptr::drop_glue, no_glue)] #[kani::stub(std::vec::Vec::extend_from_slice, extend_from_slice_model)] #[kani::stub(alloc::fmt::format, fmt_marker)]
 fn fragment_lowering() {
     let mut opts = any_options();
     let with_pragma: bool = kani::any();
